@@ -1335,7 +1335,7 @@ func (gen *Generator) generateSyntaxQuoteList(arg Sexp) error {
 			if sym.name == "unquote" {
 				//VPrintf("detected unquote with quotebody[1]='%#v'   arg='%#v'\n", quotebody[1], arg)
 				return gen.Generate(quotebody[1])
-			} else if sym.name == "unquote-splicing" {
+			} else if sym.name == "unquoteSplicing" {
 				if err := gen.Generate(quotebody[1]); err != nil {
 					return err
 				}
